@@ -187,3 +187,10 @@ Proof.
   - intros s E Hs Hc. exfalso. vm_compute in Hc. now apply Hc.
   - vm_compute. split; reflexivity.
 Qed.
+
+(* a stream whose Read returns its last bytes together with io.EOF (iotest.DataErrReader): nothing is lost *)
+Definition ex_data_eof : list hop := [HSetBodyStream (-1) (mkStream SKReader [s2b "abc"; s2b "defg"] false true)].
+Example C03_ex_data_with_eof :
+  option_map (fun p => (p_body p, p_rest p)) (resp_parse MGet (fst (fst (serve_one ok d0 cfg0 q_get ex_data_eof)) ++ s2b "NEXT"))
+    = Some (s2b "abcdefg", s2b "NEXT").
+Proof. vm_compute. reflexivity. Qed.
